@@ -445,6 +445,14 @@ def _pre_eval_stop(g, s):
         g.eval_step(s, _print_shape(rng))
 
 
+def _maybe_load(rng):
+    """None (eval) or the `load` argument of eval_step: load-file without / with a file-path."""
+    x = rng.random()
+    if x < 0.6:
+        return None
+    return (None,) if x < 0.85 else ("verif_l%d.gdn" % rng.randint(0, 2),)
+
+
 def _c31_scenario(g):
     rng = g.rng
     s = rng.choice(g.open)
@@ -466,9 +474,10 @@ def _c31_scenario(g):
             g.steps.append(["wait_done", ri])
         elif y < 0.7:
             g.steps.append(["sleep", rng.randint(0, 50)])
-        g.eval_step(s, _print_shape(rng, heavy=rng.random() < 0.5))
+        # the next request that evaluates code is an eval or a load-file (both go through the session worker)
+        g.eval_step(s, _print_shape(rng, heavy=rng.random() < 0.5), load=_maybe_load(rng))
         if rng.random() < 0.5:
-            g.eval_step(s, _print_shape(rng))
+            g.eval_step(s, _print_shape(rng), load=_maybe_load(rng))
     elif x < 0.50:
         # (a) interrupt a bounded long eval that is known to be executing
         _bystanders(g, s)
@@ -484,7 +493,7 @@ def _c31_scenario(g):
         if rng.random() < 0.3:
             g.steps.append(["wait_done", ri])
         g.steps.append(["wait_done", r])
-        g.eval_step(s, _print_shape(rng, heavy=rng.random() < 0.4))      # must complete normally
+        g.eval_step(s, _print_shape(rng, heavy=rng.random() < 0.4), load=_maybe_load(rng))      # must complete normally
     elif x < 0.66:
         # (c) close while executing
         _bystanders(g, s)
